@@ -4,6 +4,11 @@
 //
 // A table is a bump allocator over t.memory: entries (layout in package entry) are appended at t.offset,
 // t.hkeys maps a hashed key to the offset of its live entry, t.offsetIndex is the set of live offsets.
+//
+// Two layers of specification:
+//   * byte level (clauses marked `local`): exact layout facts, used and proved inside this package only;
+//   * abstract level: opaque functions of the table's memory (keyAt, valAt, ttlAt, tsAt, laAt, szAt) and the
+//     opaque invariant inv(); this is all that other packages see, so their proofs never touch byte arithmetic.
 
 package table
 
@@ -13,9 +18,30 @@ package table
 //@ pure func (t *Table) has(h uint64) bool = h in t.hkeys
 //@ pure func (t *Table) off(h uint64) int = t.hkeys[h]
 //@ pure func (t *Table) sizeAt(o int) int = 29 + t.memory[o] + be32(t.memory, o+25+t.memory[o])
+//@ pure func (t *Table) klen(h uint64) int = t.memory[t.hkeys[h]]
+//@ pure func (t *Table) vlen(h uint64) int = be32(t.memory, t.hkeys[h]+25+t.memory[t.hkeys[h]])
+
+// ---- abstract view of the entry stored at an offset (opaque outside this package); key and value bytes are
+// ---- seen as abstract strings
+//@ opaque pure func (t *Table) keyAt(o int) string reads t.memory, elems(t.memory) = bstrAt(elems(t.memory), off(t.memory)+o+1, t.memory[o])
+//@ opaque pure func (t *Table) valAt(o int) string reads t.memory, elems(t.memory) = bstrAt(elems(t.memory), off(t.memory)+o+29+t.memory[o], be32(t.memory, o+25+t.memory[o]))
+//@ opaque pure func (t *Table) ttlAt(o int) int64 reads t.memory, elems(t.memory) = int64(be64(t.memory, o+1+t.memory[o]))
+//@ opaque pure func (t *Table) tsAt(o int) int64 reads t.memory, elems(t.memory) = int64(be64(t.memory, o+9+t.memory[o]))
+//@ opaque pure func (t *Table) laAt(o int) int64 reads t.memory, elems(t.memory) = int64(be64(t.memory, o+17+t.memory[o]))
+//@ opaque pure func (t *Table) szAt(o int) int reads t.memory, elems(t.memory) = 29 + t.memory[o] + be32(t.memory, o+25+t.memory[o])
+
+// ---- the same per key
+//@ pure func (t *Table) keyOf(h uint64) string = t.keyAt(t.hkeys[h])
+//@ pure func (t *Table) valOf(h uint64) string = t.valAt(t.hkeys[h])
+//@ pure func (t *Table) ttlOf(h uint64) int64 = t.ttlAt(t.hkeys[h])
+//@ pure func (t *Table) tsOf(h uint64) int64 = t.tsAt(t.hkeys[h])
+//@ pure func (t *Table) laOf(h uint64) int64 = t.laAt(t.hkeys[h])
+//@ pure func (t *Table) size(h uint64) int = t.szAt(t.hkeys[h])
+// holds: entry e carries exactly what the table stores for h (key, value bytes, expiry, timestamp).
+//@ pure func (t *Table) holds(h uint64, e *entry.Entry) bool = e.key == t.keyOf(h) && bstr(e.value) == t.valOf(h) && e.ttl == t.ttlOf(h) && e.timestamp == t.tsOf(h)
 
 // Representation invariant.
-//@ pred (t *Table) inv() =
+//@ opaque pred (t *Table) inv() reads all(t), map(t.hkeys), t.offsetIndex.set, elems(t.memory) =
 //@     t != nil && t.hkeys != nil && t.offsetIndex != nil &&
 //@     len(t.memory) == t.allocated && t.offset <= t.allocated && t.inuse + t.garbage == t.offset &&
 //@     (forall h uint64 {dom(t.hkeys)[h]} :: dom(t.hkeys)[h] ==> t.hkeys[h] + t.sizeAt(t.hkeys[h]) <= t.offset && t.offsetIndex.set[t.hkeys[h]] && t.hk[t.hkeys[h]] == h) &&
@@ -23,13 +49,16 @@ package table
 //@     (forall h1 uint64, h2 uint64 {dom(t.hkeys)[h1], dom(t.hkeys)[h2]} :: dom(t.hkeys)[h1] && dom(t.hkeys)[h2] && h1 != h2 ==>
 //@          t.hkeys[h1] + t.sizeAt(t.hkeys[h1]) <= t.hkeys[h2] || t.hkeys[h2] + t.sizeAt(t.hkeys[h2]) <= t.hkeys[h1])
 
+// sep: two tables share no mutable component.
+//@ pure func sep(a *Table, b *Table) bool = a != b && a.hkeys != b.hkeys && a.offsetIndex != b.offsetIndex && base(a.memory) != base(b.memory)
+
 //@ func New(size uint64) *Table
 //@   props C11 C20
 //@   requires #size: size <= 4611686018427387904
 //@   ensures  #inv: result.inv()
 //@   ensures  #empty: forall h uint64 :: !result.has(h)
 //@   ensures  #fields: result.allocated == size && result.offset == 0 && result.inuse == 0 && result.garbage == 0 && result.state == ReadWriteState && len(result.hkeys) == 0
-//@   ensures  #fresh: fresh(result)
+//@   ensures  #fresh: fresh(result) && fresh(result.hkeys) && fresh(result.offsetIndex) && fresh(result.memory) && result.coefficient == 0
 
 //@ func (t *Table) Delete(hkey uint64) error
 //@   props C11 C20
@@ -40,7 +69,7 @@ package table
 //@   ensures  #err_kind: result == nil || result == ErrHKeyNotFound
 //@   ensures  #gone: !t.has(hkey)
 //@   ensures  #others: forall h uint64 :: h != hkey ==> (t.has(h) == old(t.has(h)) && t.off(h) == old(t.off(h)))
-//@   ensures  #acct [C20]: old(t.has(hkey)) ==> t.garbage == old(t.garbage) + old(t.sizeAt(t.off(hkey))) && t.inuse == old(t.inuse) - old(t.sizeAt(t.off(hkey)))
+//@   ensures  #acct [C20]: old(t.has(hkey)) ==> t.garbage == old(t.garbage) + old(t.size(hkey)) && t.inuse == old(t.inuse) - old(t.size(hkey))
 //@   ensures  #acct_absent [C20]: !old(t.has(hkey)) ==> t.garbage == old(t.garbage) && t.inuse == old(t.inuse)
 //@   ensures  #len: len(t.hkeys) == old(len(t.hkeys)) - ite(old(t.has(hkey)), 1, 0)
 //@   modifies t.garbage, t.inuse, map(t.hkeys), t.offsetIndex.set
@@ -58,13 +87,9 @@ package table
 //@   trusts   #inuse_zero_means_empty: result.Inuse == 0 ==> forall h uint64 :: !t.has(h)
 //@   modifies nothing
 
-// ---- byte-level view of the live entry of a key
-//@ pure func (t *Table) klen(h uint64) int = t.memory[t.hkeys[h]]
-//@ pure func (t *Table) vlen(h uint64) int = be32(t.memory, t.hkeys[h]+25+t.memory[t.hkeys[h]])
-//@ pure func (t *Table) size(h uint64) int = t.sizeAt(t.hkeys[h])
-
 //@ func (t *Table) Put(hkey uint64, value storage.Entry) error
 //@   props C11 C17 C20
+//@   flag bstr_ext
 //@   requires #inv_in: t.inv()
 //@   requires #entry: value != nil && len(value.value) < 4294967296
 //@   requires #separate [C18]: base(value.value) != base(t.memory)
@@ -72,19 +97,22 @@ package table
 //@   ensures  #nospace [C17]: (result == ErrNotEnoughSpace) == (len(value.key) < 256 && 29 + len(value.key) + len(value.value) + old(t.offset) >= t.allocated)
 //@   ensures  #err_kind: result == nil || result == storage.ErrKeyTooLarge || result == ErrNotEnoughSpace
 //@   ensures  #error_changes_nothing [C17]: result != nil ==> t.offset == old(t.offset) && t.inuse == old(t.inuse) && t.garbage == old(t.garbage) &&
-//@                (forall h uint64 :: t.has(h) == old(t.has(h)) && t.off(h) == old(t.off(h))) &&
-//@                (forall i int :: 0 <= i && i < len(t.memory) ==> t.memory[i] == old(t.memory[i]))
+//@                (forall h uint64 :: t.has(h) == old(t.has(h)) && t.off(h) == old(t.off(h))) && elems(t.memory) == old(elems(t.memory))
 //@   ensures  #st_has [C11 C17]: result == nil ==> t.has(hkey) && t.off(hkey) == old(t.offset)
-//@   ensures  #st_klen [C11 C17]: result == nil ==> t.memory[old(t.offset)] == len(value.key)
-//@   ensures  #st_key [C11 C17]: result == nil ==> forall i int :: 0 <= i && i < len(value.key) ==> t.memory[old(t.offset)+1+i] == strbytes(value.key)[i]
-//@   ensures  #st_ttl [C11 C17]: result == nil ==> be64(t.memory, old(t.offset)+1+len(value.key)) == uint64(value.ttl)
-//@   ensures  #st_ts [C11 C17]: result == nil ==> be64(t.memory, old(t.offset)+9+len(value.key)) == uint64(value.timestamp)
-//@   ensures  #st_vlen [C11 C17]: result == nil ==> be32(t.memory, old(t.offset)+25+len(value.key)) == len(value.value)
-//@   ensures  #st_val [C11 C17]: result == nil ==> forall i int :: 0 <= i && i < len(value.value) ==> t.memory[old(t.offset)+29+len(value.key)+i] == old(value.value[i])
+//@   ensures  #st_klen [C11 C17] local: result == nil ==> t.memory[old(t.offset)] == len(value.key)
+//@   ensures  #st_key [C11 C17] local: result == nil ==> forall i int :: 0 <= i && i < len(value.key) ==> t.memory[old(t.offset)+1+i] == strbytes(value.key)[i]
+//@   ensures  #st_ttl [C11 C17] local: result == nil ==> be64(t.memory, old(t.offset)+1+len(value.key)) == uint64(value.ttl)
+//@   ensures  #st_ts [C11 C17] local: result == nil ==> be64(t.memory, old(t.offset)+9+len(value.key)) == uint64(value.timestamp)
+//@   ensures  #st_vlen [C11 C17] local: result == nil ==> be32(t.memory, old(t.offset)+25+len(value.key)) == len(value.value)
+//@   ensures  #st_val [C11 C17] local: result == nil ==> forall i int :: 0 <= i && i < len(value.value) ==> t.memory[old(t.offset)+29+len(value.key)+i] == old(value.value[i])
 //@   ensures  #others [C11]: forall h uint64 :: h != hkey ==> (t.has(h) == old(t.has(h)) && t.off(h) == old(t.off(h)))
-//@   ensures  #below [C11 C17]: forall i int :: 0 <= i && i < old(t.offset) ==> t.memory[i] == old(t.memory[i])
-//@   ensures  #sizes_kept [C11]: forall h uint64 {dom(t.hkeys)[h]} :: h != hkey && old(t.has(h)) ==> t.sizeAt(t.hkeys[h]) == old(t.sizeAt(t.hkeys[h]))
+//@   ensures  #below [C11 C17] local: forall i int :: 0 <= i && i < old(t.offset) ==> t.memory[i] == old(t.memory[i])
+//@   ensures  #sizes_kept [C11] local: forall h uint64 {dom(t.hkeys)[h]} :: h != hkey && old(t.has(h)) ==> t.sizeAt(t.hkeys[h]) == old(t.sizeAt(t.hkeys[h]))
 //@   ensures  #inv_out: t.inv()
+//@   ensures  #a_stored [C11 C17]: result == nil ==> t.keyOf(hkey) == value.key && t.valOf(hkey) == old(bstr(value.value)) && t.ttlOf(hkey) == value.ttl && t.tsOf(hkey) == value.timestamp &&
+//@                t.size(hkey) == 29 + len(value.key) + len(value.value)
+//@   ensures  #a_others [C11]: forall h uint64 :: h != hkey && old(t.has(h)) ==> t.keyOf(h) == old(t.keyOf(h)) && t.valOf(h) == old(t.valOf(h)) &&
+//@                t.ttlOf(h) == old(t.ttlOf(h)) && t.tsOf(h) == old(t.tsOf(h)) && t.laOf(h) == old(t.laOf(h)) && t.size(h) == old(t.size(h))
 //@   ensures  #acct [C20]: result == nil ==> t.offset == old(t.offset) + 29 + len(value.key) + len(value.value) &&
 //@                t.inuse == old(t.inuse) + 29 + len(value.key) + len(value.value) - ite(old(t.has(hkey)), old(t.size(hkey)), 0) &&
 //@                t.garbage == old(t.garbage) + ite(old(t.has(hkey)), old(t.size(hkey)), 0)
@@ -95,41 +123,51 @@ package table
 
 //@ func (t *Table) PutRaw(hkey uint64, value []byte) error
 //@   props C11 C04 C20
+//@   flag bstr_ext
 //@   requires #inv_in: t.inv()
 //@   requires #wf [C16]: entry.wfAt(elems(value), off(value), len(value))
 //@   requires #separate [C18]: base(value) != base(t.memory)
 //@   ensures  #nospace: (result == ErrNotEnoughSpace) == (len(value) + old(t.offset) >= t.allocated)
 //@   ensures  #err_kind: result == nil || result == ErrNotEnoughSpace
-//@   ensures  #stored [C11 C04]: result == nil ==> t.has(hkey) && t.off(hkey) == old(t.offset) &&
-//@                (forall i int :: 0 <= i && i < len(value) ==> t.memory[old(t.offset)+i] == old(value[i]))
+//@   ensures  #st_has [C11 C04]: result == nil ==> t.has(hkey) && t.off(hkey) == old(t.offset)
+//@   ensures  #stored [C11 C04] local: result == nil ==> (forall i int :: 0 <= i && i < len(value) ==> t.memory[old(t.offset)+i] == old(value[i]))
 //@   ensures  #others [C11]: forall h uint64 :: h != hkey ==> (t.has(h) == old(t.has(h)) && t.off(h) == old(t.off(h)))
-//@   ensures  #below [C11]: forall i int :: 0 <= i && i < old(t.offset) ==> t.memory[i] == old(t.memory[i])
-//@   ensures  #sizes_kept [C11]: forall h uint64 {dom(t.hkeys)[h]} :: h != hkey && old(t.has(h)) ==> t.sizeAt(t.hkeys[h]) == old(t.sizeAt(t.hkeys[h]))
+//@   ensures  #below [C11] local: forall i int :: 0 <= i && i < old(t.offset) ==> t.memory[i] == old(t.memory[i])
+//@   ensures  #sizes_kept [C11] local: forall h uint64 {dom(t.hkeys)[h]} :: h != hkey && old(t.has(h)) ==> t.sizeAt(t.hkeys[h]) == old(t.sizeAt(t.hkeys[h]))
 //@   ensures  #inv_out: t.inv()
+//@   ensures  #a_others [C11]: forall h uint64 :: h != hkey && old(t.has(h)) ==> t.keyOf(h) == old(t.keyOf(h)) && t.valOf(h) == old(t.valOf(h)) &&
+//@                t.ttlOf(h) == old(t.ttlOf(h)) && t.tsOf(h) == old(t.tsOf(h)) && t.laOf(h) == old(t.laOf(h)) && t.size(h) == old(t.size(h))
+//@   ensures  #a_size [C20]: result == nil ==> t.size(hkey) == len(value)
 //@   ensures  #acct [C20]: result == nil ==> t.offset == old(t.offset) + len(value) &&
 //@                t.inuse == old(t.inuse) + len(value) - ite(old(t.has(hkey)), old(t.size(hkey)), 0) &&
 //@                t.garbage == old(t.garbage) + ite(old(t.has(hkey)), old(t.size(hkey)), 0)
 //@   ensures  #error_changes_nothing: result != nil ==> t.offset == old(t.offset) && t.inuse == old(t.inuse) && t.garbage == old(t.garbage) &&
-//@                (forall h uint64 :: t.has(h) == old(t.has(h)) && t.off(h) == old(t.off(h)))
+//@                (forall h uint64 :: t.has(h) == old(t.has(h)) && t.off(h) == old(t.off(h))) && elems(t.memory) == old(elems(t.memory))
+//@   ensures  #len [C11]: result == nil ==> len(t.hkeys) == old(len(t.hkeys)) + ite(old(t.has(hkey)), 0, 1)
 //@   modifies t.offset, t.inuse, t.garbage, map(t.hkeys), t.offsetIndex.set, elems(t.memory), t.hk
 //@   ghost t.hk := ite(result == nil, update(old(t.hk), old(t.offset), hkey), old(t.hk))
 
 //@ func (t *Table) Get(hkey uint64) (storage.Entry, error)
 //@   props C11 C17 C18
+//@   flag bstr_ext
 //@   requires #inv_in: t.inv()
-//@   ensures  #inv_out: t.inv()
 //@   ensures  #found [C11]: (result.1 == nil) == t.has(hkey)
 //@   ensures  #err_kind: result.1 == nil || result.1 == ErrHKeyNotFound
 //@   ensures  #nonnil: result.1 == nil ==> result.0 != nil && fresh(result.0)
-//@   ensures  #key [C11 C17]: result.1 == nil ==> result.0.key == bstrAt(elems(t.memory), off(t.memory)+t.off(hkey)+1, t.klen(hkey))
-//@   ensures  #ttl [C11 C17]: result.1 == nil ==> result.0.ttl == int64(be64(t.memory, t.off(hkey)+1+t.klen(hkey)))
-//@   ensures  #ts [C11 C17]: result.1 == nil ==> result.0.timestamp == int64(be64(t.memory, t.off(hkey)+9+t.klen(hkey)))
-//@   ensures  #la: result.1 == nil ==> result.0.lastAccess == int64(old(be64(t.memory, t.off(hkey)+17+t.klen(hkey))))
-//@   ensures  #value [C11 C17]: result.1 == nil ==> len(result.0.value) == t.vlen(hkey) &&
+//@   ensures  #key [C11 C17] local: result.1 == nil ==> result.0.key == bstrAt(elems(t.memory), off(t.memory)+t.off(hkey)+1, t.klen(hkey))
+//@   ensures  #ttl [C11 C17] local: result.1 == nil ==> result.0.ttl == int64(be64(t.memory, t.off(hkey)+1+t.klen(hkey)))
+//@   ensures  #ts [C11 C17] local: result.1 == nil ==> result.0.timestamp == int64(be64(t.memory, t.off(hkey)+9+t.klen(hkey)))
+//@   ensures  #la local: result.1 == nil ==> result.0.lastAccess == int64(old(be64(t.memory, t.off(hkey)+17+t.klen(hkey))))
+//@   ensures  #value [C11 C17] local: result.1 == nil ==> len(result.0.value) == t.vlen(hkey) &&
 //@                forall i int :: 0 <= i && i < t.vlen(hkey) ==> result.0.value[i] == t.memory[t.off(hkey)+29+t.klen(hkey)+i]
 //@   ensures  #fresh_value [C18]: result.1 == nil ==> fresh(result.0.value)
-//@   ensures  #only_la [C11]: forall i int :: 0 <= i && i < len(t.memory) &&
+//@   ensures  #only_la [C11] local: forall i int :: 0 <= i && i < len(t.memory) &&
 //@                !(t.has(hkey) && t.off(hkey)+17+t.klen(hkey) <= i && i < t.off(hkey)+25+t.klen(hkey)) ==> t.memory[i] == old(t.memory[i])
+//@   ensures  #sizes_kept [C11] local: forall h uint64 {dom(t.hkeys)[h]} :: t.has(h) ==> t.sizeAt(t.hkeys[h]) == old(t.sizeAt(t.hkeys[h]))
+//@   ensures  #inv_out: t.inv()
+//@   ensures  #holds [C11 C17]: result.1 == nil ==> t.holds(hkey, result.0)
+//@   ensures  #a_same [C11]: forall h uint64 :: t.has(h) ==> t.keyOf(h) == old(t.keyOf(h)) && t.valOf(h) == old(t.valOf(h)) && t.ttlOf(h) == old(t.ttlOf(h)) && t.tsOf(h) == old(t.tsOf(h)) && t.size(h) == old(t.size(h))
+//@   ensures  #a_la [C10]: forall h uint64 :: t.has(h) && h != hkey ==> t.laOf(h) == old(t.laOf(h))
 //@   modifies elems(t.memory)
 
 //@ func (t *Table) GetRaw(hkey uint64) ([]byte, error)
@@ -139,7 +177,8 @@ package table
 //@   ensures  #err_kind: result.1 == nil || result.1 == ErrHKeyNotFound
 //@   ensures  #fresh [C18]: result.1 == nil ==> fresh(result.0)
 //@   ensures  #len: result.1 == nil ==> len(result.0) == t.size(hkey)
-//@   ensures  #bytes [C11 C04]: result.1 == nil ==> forall i int :: 0 <= i && i < t.size(hkey) ==> result.0[i] == t.memory[t.off(hkey)+i]
+//@   ensures  #bytes [C11 C04] local: result.1 == nil ==> forall i int :: 0 <= i && i < t.sizeAt(t.off(hkey)) ==> result.0[i] == t.memory[t.off(hkey)+i]
+//@   ensures  #wf [C16]: result.1 == nil ==> entry.wfAt(elems(result.0), off(result.0), len(result.0))
 //@   modifies nothing
 
 //@ func (t *Table) GetTTL(hkey uint64) (int64, error)
@@ -147,7 +186,7 @@ package table
 //@   requires #inv_in: t.inv()
 //@   ensures  #found: (result.1 == nil) == t.has(hkey)
 //@   ensures  #err_kind: result.1 == nil || result.1 == ErrHKeyNotFound
-//@   ensures  #ttl: result.1 == nil ==> result.0 == int64(be64(t.memory, t.off(hkey)+1+t.klen(hkey)))
+//@   ensures  #ttl: result.1 == nil ==> result.0 == t.ttlOf(hkey)
 //@   modifies nothing
 
 //@ func (t *Table) GetLastAccess(hkey uint64) (int64, error)
@@ -155,27 +194,32 @@ package table
 //@   requires #inv_in: t.inv()
 //@   ensures  #found: (result.1 == nil) == t.has(hkey)
 //@   ensures  #err_kind: result.1 == nil || result.1 == ErrHKeyNotFound
-//@   ensures  #la: result.1 == nil ==> result.0 == int64(be64(t.memory, t.off(hkey)+17+t.klen(hkey)))
+//@   ensures  #la: result.1 == nil ==> result.0 == t.laOf(hkey)
 //@   modifies nothing
 
 //@ func (t *Table) GetKey(hkey uint64) (string, error)
 //@   props C11 C17
 //@   requires #inv_in: t.inv()
 //@   ensures  #found: (result.1 == nil) == t.has(hkey)
-//@   ensures  #key: result.1 == nil ==> result.0 == bstrAt(elems(t.memory), off(t.memory)+t.off(hkey)+1, t.klen(hkey))
+//@   ensures  #key [C11 C17]: result.1 == nil ==> result.0 == t.keyOf(hkey)
 //@   modifies nothing
 
 //@ func (t *Table) UpdateTTL(hkey uint64, value storage.Entry) error
 //@   props C11 C09
+//@   flag bstr_ext
 //@   requires #inv_in: t.inv()
 //@   requires #entry: value != nil
-//@   ensures  #inv_out: t.inv()
 //@   ensures  #found: (result == nil) == t.has(hkey)
 //@   ensures  #err_kind: result == nil || result == ErrHKeyNotFound
-//@   ensures  #ttl [C09]: result == nil ==> be64(t.memory, t.off(hkey)+1+t.klen(hkey)) == uint64(value.ttl)
-//@   ensures  #ts [C09]: result == nil ==> be64(t.memory, t.off(hkey)+9+t.klen(hkey)) == uint64(value.timestamp)
-//@   ensures  #only_meta [C09 C11]: forall i int :: 0 <= i && i < len(t.memory) &&
+//@   ensures  #ttl [C09] local: result == nil ==> be64(t.memory, t.off(hkey)+1+t.klen(hkey)) == uint64(value.ttl)
+//@   ensures  #ts [C09] local: result == nil ==> be64(t.memory, t.off(hkey)+9+t.klen(hkey)) == uint64(value.timestamp)
+//@   ensures  #only_meta [C09 C11] local: forall i int :: 0 <= i && i < len(t.memory) &&
 //@                !(t.has(hkey) && t.off(hkey)+1+t.klen(hkey) <= i && i < t.off(hkey)+25+t.klen(hkey)) ==> t.memory[i] == old(t.memory[i])
+//@   ensures  #sizes_kept [C11] local: forall h uint64 {dom(t.hkeys)[h]} :: t.has(h) ==> t.sizeAt(t.hkeys[h]) == old(t.sizeAt(t.hkeys[h]))
+//@   ensures  #inv_out: t.inv()
+//@   ensures  #a_ttl [C09]: result == nil ==> t.ttlOf(hkey) == value.ttl && t.tsOf(hkey) == value.timestamp
+//@   ensures  #a_kv [C09 C11]: forall h uint64 :: t.has(h) ==> t.keyOf(h) == old(t.keyOf(h)) && t.valOf(h) == old(t.valOf(h)) && t.size(h) == old(t.size(h))
+//@   ensures  #a_meta [C09 C11]: forall h uint64 :: t.has(h) && h != hkey ==> t.ttlOf(h) == old(t.ttlOf(h)) && t.tsOf(h) == old(t.tsOf(h)) && t.laOf(h) == old(t.laOf(h))
 //@   modifies elems(t.memory)
 
 //@ func (t *Table) Reset()
@@ -185,4 +229,5 @@ package table
 //@   ensures  #inv_out: t.inv()
 //@   ensures  #empty: forall h uint64 :: !t.has(h)
 //@   ensures  #zeroed [C20]: t.inuse == 0 && t.garbage == 0 && t.offset == 0 && t.coefficient == 0 && t.state == RecycledState && len(t.hkeys) == 0
+//@   ensures  #kept: t.allocated == old(t.allocated) && base(t.memory) == old(base(t.memory)) && t.offsetIndex == old(t.offsetIndex) && (fresh(t.hkeys) || t.hkeys == old(t.hkeys))
 //@   modifies t.hkeys, t.state, t.inuse, t.garbage, t.offset, t.coefficient, t.recycledAt
